@@ -46,21 +46,23 @@ func (n *vDirNode) LookupByString(key string) (datamodel.Node, error) {
 	}
 	return nil, datamodel.ErrNotExists{}
 }
-func (n *vDirNode) LookupByNode(datamodel.Node) (datamodel.Node, error)           { return nil, errVNode }
-func (n *vDirNode) LookupByIndex(int64) (datamodel.Node, error)                   { return nil, errVNode }
-func (n *vDirNode) LookupBySegment(datamodel.PathSegment) (datamodel.Node, error) { return nil, errVNode }
-func (n *vDirNode) MapIterator() datamodel.MapIterator                            { return &vDirIter{n: n} }
-func (n *vDirNode) ListIterator() datamodel.ListIterator                          { return nil }
-func (n *vDirNode) Length() int64                                                 { return int64(len(n.entries)) }
-func (n *vDirNode) IsAbsent() bool                                                { return false }
-func (n *vDirNode) IsNull() bool                                                  { return false }
-func (n *vDirNode) AsBool() (bool, error)                                         { return false, errVNode }
-func (n *vDirNode) AsInt() (int64, error)                                         { return 0, errVNode }
-func (n *vDirNode) AsFloat() (float64, error)                                     { return 0, errVNode }
-func (n *vDirNode) AsString() (string, error)                                     { return "", errVNode }
-func (n *vDirNode) AsBytes() ([]byte, error)                                      { return nil, errVNode }
-func (n *vDirNode) AsLink() (datamodel.Link, error)                               { return nil, errVNode }
-func (n *vDirNode) Prototype() datamodel.NodePrototype                            { return basicnode.Prototype.Map }
+func (n *vDirNode) LookupByNode(datamodel.Node) (datamodel.Node, error) { return nil, errVNode }
+func (n *vDirNode) LookupByIndex(int64) (datamodel.Node, error)         { return nil, errVNode }
+func (n *vDirNode) LookupBySegment(datamodel.PathSegment) (datamodel.Node, error) {
+	return nil, errVNode
+}
+func (n *vDirNode) MapIterator() datamodel.MapIterator   { return &vDirIter{n: n} }
+func (n *vDirNode) ListIterator() datamodel.ListIterator { return nil }
+func (n *vDirNode) Length() int64                        { return int64(len(n.entries)) }
+func (n *vDirNode) IsAbsent() bool                       { return false }
+func (n *vDirNode) IsNull() bool                         { return false }
+func (n *vDirNode) AsBool() (bool, error)                { return false, errVNode }
+func (n *vDirNode) AsInt() (int64, error)                { return 0, errVNode }
+func (n *vDirNode) AsFloat() (float64, error)            { return 0, errVNode }
+func (n *vDirNode) AsString() (string, error)            { return "", errVNode }
+func (n *vDirNode) AsBytes() ([]byte, error)             { return nil, errVNode }
+func (n *vDirNode) AsLink() (datamodel.Link, error)      { return nil, errVNode }
+func (n *vDirNode) Prototype() datamodel.NodePrototype   { return basicnode.Prototype.Map }
 
 type vDirIter struct {
 	n *vDirNode
